@@ -174,24 +174,24 @@ def check_textbook(w, rep):
                         "SE(3) exponential is not (left Jacobian times v, rotation exponential)")
 
 
-def check_shadow_invariance(w, rep):
+def check_shadow_invariance(w, rep, RULE="C02.flow"):
     Mr = w.G("SO3Mrp")
     R, r = w.fresh(Mr, "r")
     n2 = cm.sumsqr(r)
     sh = w.elem(Mr, cm.ew(cm.neg(r), n2, cm.pdiv))
-    ok, ms = guarded(w, rep, "C02.flow", "SO3Mrp shadow", lambda: (w.call(R, "to_Matrix"), w.call(sh, "to_Matrix")))
+    ok, ms = guarded(w, rep, RULE, "SO3Mrp shadow", lambda: (w.call(R, "to_Matrix"), w.call(sh, "to_Matrix")))
     if ok:
         with with_maxdeg(30):
-            verdict(rep, "C02.flow", "SO3Mrp: to_Matrix(-r/|r|^2) = to_Matrix(r) (the shadow set is the same rotation)", ms[1], ms[0], (),
+            verdict(rep, RULE, "SO3Mrp: to_Matrix(-r/|r|^2) = to_Matrix(r) (the shadow set is the same rotation)", ms[1], ms[0], (),
                     w.method_where(Mr, "to_Matrix")[:2], "the shadow MRP does not represent the same rotation")
     # and shadow_if_necessary is if_else(r.r > 1, -r/(r.r), r)
     from .c03 import is_shadowed
     X, xp = w.fresh(Mr, "s")
-    ok, _ = guarded(w, rep, "C02.flow", "shadow_if_necessary", lambda: w.call(Mr, "shadow_if_necessary", X))
+    ok, _ = guarded(w, rep, RULE, "shadow_if_necessary", lambda: w.call(Mr, "shadow_if_necessary", X))
     if ok:
         good, why = is_shadowed(w.param(X))
         same = good and all(c.single_atom().key[2] == p for c, p in zip(w.param(X).flat(), xp.flat()))
-        rep.check("C02.flow", "shadow_if_necessary = if_else(r.r > 1, -r/(r.r), r)", same, "shadow switch is not the strict |r|^2 > 1 selection of -r/|r|^2 (%s)" % (why or "else branch is not r"),
+        rep.check(RULE, "shadow_if_necessary = if_else(r.r > 1, -r/(r.r), r)", same, "shadow switch is not the strict |r|^2 > 1 selection of -r/|r|^2 (%s)" % (why or "else branch is not r"),
                   where=w.method_where(Mr, "shadow_if_necessary")[:2])
 
 
